@@ -41,4 +41,14 @@ CHECKS["C18"] = {
     "note": "OS scheduling is steered and recorded, not enumerated; wrappers around rzilcompiler.Parser.parse_single/Pool/tqdm are installed by the harness",
     "technique": "TLC model checking of a TLA+ pool model + trace validation of real pool runs",
 }
+CHECKS["C19"] = {
+    "category": "model_checking",
+    "engine": "tlc-mc",
+    "text": "Shortcode.tla defines the line and compound formats and generates every body over a 12-atom alphabet up to length 4 (5 in thorough), "
+            "27 malformed variants and 450 compound bodies; together with all bundled lines they are fed to the real split/load functions and "
+            "every call event is validated by TLC against the specification (NAME/BODY recovered exactly, malformed rejected, statement "
+            "sequence of the two parts equals the original, parts brace-balanced); load_insn_behavior is run on generated files in a scratch git directory",
+    "note": "trusted base: TLC, Shortcode.tla, the independent dialect parser used to read the statement lists of returned parts",
+    "technique": "TLC-enumerated inputs + call-trace validation against a TLA+ definition of the line format",
+}
 NOT_YET = {}
